@@ -191,6 +191,13 @@ func provablyNonNil(v ssa.Value, b *ssa.BasicBlock, depth int) bool {
 		// ctx.Err() after <-ctx.Done() etc. is decided by the caller
 	case *ssa.Alloc:
 		return true
+	case *ssa.Phi:
+		for _, e := range x.Edges {
+			if !provablyNonNil(e, b, depth+1) {
+				return false
+			}
+		}
+		return len(x.Edges) > 0
 	case *ssa.Global:
 		return false
 	case *ssa.UnOp:
